@@ -203,6 +203,22 @@ class Body:
             return self.const_locals().get(op[1][0])
         return None
 
+    # ---- return carriers: _0 and the temporaries whose whole value is moved into it
+    def ret_carriers(self):
+        c = getattr(self, '_carriers', None)
+        if c is None:
+            c = {0}
+            for _ in range(3):
+                for b in self.blocks:
+                    if b.cleanup:
+                        continue
+                    for (_, pl, rv) in b.stmts:
+                        if pl[0] in c and not pl[1] and rv[0] == 'use' and rv[1][0] in ('copy', 'move') \
+                                and not rv[1][1][1] and rv[1][1][0] > self.argc:
+                            c.add(rv[1][1][0])
+            self._carriers = c
+        return c
+
     # ---- CFG (success-path CFG: no unwind edges, constant switches pruned)
     def succ(self, bi):
         if self._succ is None:
